@@ -300,11 +300,14 @@ def fields_of(canon):
 
 
 def write_evidence(prop, tier, seed, coverage, assumptions, wall, violations):
-    os.makedirs(os.path.join(ROOT, "evidence"), exist_ok=True)
+    # /verif/evidence/<id>.json, except when tools/seeded.py runs the check against a deliberately broken
+    # tree: those runs must not overwrite the evidence of the real tree
+    evdir = os.environ.get("VERIF_EVIDENCE_DIR") or os.path.join(ROOT, "evidence")
+    os.makedirs(evdir, exist_ok=True)
     ev = {"property_id": prop, "tier": tier, "seed": seed, "level": "proof",
           "coverage": coverage, "assumptions": assumptions, "wall_s": round(wall, 2),
           "violations": violations}
-    p = os.path.join(ROOT, "evidence", f"{prop}.json")
+    p = os.path.join(evdir, f"{prop}.json")
     with open(p, "w") as f:
         json.dump(ev, f, indent=1)
     return p
